@@ -1381,10 +1381,8 @@ class SQLModel:
             )
         if temp_id_source is None:
             temp_id_source = [0]
-        using_was_None = False
         if using is None:
             using = OrderedSet(order_node.column_names)
-            using_was_None = True
         subusing = order_node.columns_used_from_sources(using=using)[0]
         subusing = [c for c in order_node.column_names if c in subusing]  # fix order
         subsql = order_node.sources[0].to_near_sql_implementation_(
@@ -1392,9 +1390,8 @@ class SQLModel:
         )
         view_name = "order_rows_" + str(temp_id_source[0])
         temp_id_source[0] = temp_id_source[0] + 1
-        terms = None
-        if not using_was_None:
-            terms = {ci: None for ci in subusing}
+        # always name the columns: "SELECT *" over a table also returns physical columns the table description does not list
+        terms = {ci: None for ci in subusing}
         suffix: List[str] = []
         if len(order_node.order_columns) > 0:
             suffix = (
